@@ -9,7 +9,7 @@ RULE = ("cases = (encoded array, index) for every array of length 1..L over {0,1
         "oracle = the same index applied to the dense array; non-trivial = the array has at least two runs and the result is non-empty")
 ASSUMPTIONS = ["oracle: numpy indexing of the dense array; values only", "out-of-range integers are outside the statement and not issued",
                "results that are run-length arrays must also satisfy the constructor invariant (C14)"]
-REQUIRED_FEATURES = ["negative_int", "bound_beyond_end", "negative_step", "empty_result", "rl_mask", "rl_mask_not_canonical", "dense_mask", "list_of_bools_mask", "small_index_dtype", "slice_of_empty_or_single_result", "index_inside_tuple", "window_pair", "list_with_repeats", "close_float_values",
+REQUIRED_FEATURES = ["negative_int", "bound_beyond_end", "negative_step", "empty_result", "rl_mask", "rl_mask_not_canonical", "dense_mask", "list_of_bools_mask", "small_index_dtype", "slice_of_empty_or_single_result", "index_inside_tuple", "boolean_receiver", "window_pair", "list_with_repeats", "close_float_values",
                      "step_larger_than_run"]
 BOUNDS = {"quick": "all arrays over {0,1,2} of length 1..4 and those of length 5 starting with 0 x {every int in [-L,L-1]; every list of length<=2; every dense and run-length mask; every slice with "
                    "start,stop in {None} u [-(L+2),L+2] and step in {None,+-1,+-2,+-3,+-4}; every vector of 1-2 windows}; list-of-bools masks; close-float arrays; two 40-element arrays; 100- and 200-element arrays indexed in int8 / uint8 / int16 / int32",
@@ -189,6 +189,16 @@ def check(case, acc):
             src = np.array([(i + 1) if b else -(i + 1) for i, b in enumerate(idx[1])], dtype=np.int64)
             f = lambda: _rla_obs(r[RunLengthArray.from_array(src) > 0], joined=False)
         f2 = None
+        if kind in ("rlmask", "mask") and len(case) == 2:
+            # a BOOLEAN receiver (neighbouring pieces of the result may hold the same truth value) under the same mask
+            acc.feature("boolean_receiver")
+            ab = a > 0
+            rb = RunLengthArray.from_array(ab.copy())
+            sel_b = RunLengthArray.from_array(mm) if kind == "rlmask" else mm
+            ob = attempt(lambda: dense_obs(np.asarray(rb[sel_b].to_array() if kind == "rlmask" else rb[sel_b]), dt=False))
+            acc.trans()
+            if ob != dense_obs(ab[mm], dt=False):
+                acc.fail("wrong-elements", ("boolean receiver", idx, dense_obs(ab[mm], dt=False)), ob)
     else:
         acc.feature("window_pair")
         ss = np.array([w[0] for w in idx[1]])
